@@ -311,9 +311,12 @@ def _expr_equal(a: Any, b: Any) -> Optional[bool]:
         x, y = sp.sympify(a), sp.sympify(b)
     except Exception:
         return None
-    from sympy.logic.boolalg import Boolean as _Boolean
+    from sympy.core.relational import Relational as _Rel
+    from sympy.logic.boolalg import BooleanAtom as _BAtom, BooleanFunction as _BFunc
 
-    if isinstance(x, _Boolean) or isinstance(y, _Boolean):
+    # (a sympy Symbol is itself a Boolean: only relations, connectives and true/false count here)
+    _B = (_Rel, _BFunc, _BAtom)
+    if isinstance(x, _B) or isinstance(y, _B):
         # conditions (γ-guards inside a term): equal when structurally equal or provably equivalent
         if x == y:
             return True
